@@ -145,25 +145,32 @@ theorem zipWith_map_same {α β γ δ : Type} (f : β → γ → δ) (a : α →
 
 theorem cellsOf_length (a b : Nat) : (cellsOf a b).length = a * b := C12Conv.grid_length a b
 
-theorem c1_eq (pb : Problem) :
-    (do let ne0 ← binop .ne (.arr2 false pb.height pb.width (ivars 0 (N pb))) (.scalar (.litI 0))
-        let d ← binop .eq (.arr2 true pb.height pb.width (bvars (wb pb) (N pb))) ne0
-        ensureV d) = .ok (c1 pb) := by
-  rw [ivars_zero, binop_cmp_int_arr2_lit .ne .ne (Or.inr ⟨rfl, rfl⟩) _ _ _ (by simp [N]), ok_bind]
-  rw [bvars_eq, binop_eq_bool_arr2 _ _ _ _ (by simp [N]) (by simp [N]), ok_bind]
-  rw [List.map_map, zipWith_map_same]
-  rw [ensureV_arr2 _ _ _ _ (by
-    intro e he
-    simp only [List.mem_map] at he
-    obtain ⟨i, _, rfl⟩ := he
-    rfl)]
+def ne0 (pb : Problem) : List Expr := (List.range (N pb)).map fun i => Expr.node .ne [.ivar i, .litI 0]
+
+theorem ne0_eq (pb : Problem) :
+    binop .ne (.arr2 false pb.height pb.width (ivars 0 (N pb))) (.scalar (.litI 0))
+      = .ok (.arr2 true pb.height pb.width (ne0 pb)) := by
+  rw [ivars_zero, binop_cmp_int_arr2_lit .ne .ne (Or.inr ⟨rfl, rfl⟩) _ _ _ (by simp [N]), List.map_map]
   rfl
+
+theorem def_eq (pb : Problem) :
+    binop .eq (.arr2 true pb.height pb.width (bvars (wb pb) (N pb))) (.arr2 true pb.height pb.width (ne0 pb))
+      = .ok (.arr2 true pb.height pb.width (c1 pb)) := by
+  rw [bvars_eq, ne0, binop_eq_bool_arr2 _ _ _ _ (by simp [N]) (by simp [N]), zipWith_map_same]
+  rfl
+
+theorem ens_c1 (pb : Problem) : ensureV (.arr2 true pb.height pb.width (c1 pb)) = .ok (c1 pb) :=
+  ensureV_arr2 _ _ _ _ (by
+    intro e he
+    simp only [c1, List.mem_map] at he
+    obtain ⟨i, _, rfl⟩ := he
+    rfl)
 
 theorem sameIsland_v {pb : Problem} (hwf : WellFormed pb) :
     sameIsland (.arr2 true pb.height pb.width (bvars (wb pb) (N pb)))
       (.arr2 false pb.height pb.width (ivars 0 (N pb))) 2 1
       (.pair (sl none (some (-1))) fullSlice) (.pair (sl (some 1) none) fullSlice) = .ok (c2 pb) := by
-  unfold sameIsland
+  unfold sameIsland sl
   have hconv := C12Conv.conv2d_eq (whites pb) pb.height pb.width 2 1 .and_ .and rfl (whites_length pb)
   have hw : bvars (wb pb) (N pb) = whites pb := rfl
   rw [hw]
@@ -199,7 +206,7 @@ theorem sameIsland_h {pb : Problem} (hwf : WellFormed pb) :
     sameIsland (.arr2 true pb.height pb.width (bvars (wb pb) (N pb)))
       (.arr2 false pb.height pb.width (ivars 0 (N pb))) 1 2
       (.pair fullSlice (sl none (some (-1)))) (.pair fullSlice (sl (some 1) none)) = .ok (c3 pb) := by
-  unfold sameIsland
+  unfold sameIsland sl
   have hconv := C12Conv.conv2d_eq (whites pb) pb.height pb.width 1 2 .and_ .and rfl (whites_length pb)
   have hw : bvars (wb pb) (N pb) = whites pb := rfl
   rw [hw]
@@ -232,54 +239,51 @@ theorem sameIsland_h {pb : Problem} (hwf : WellFormed pb) :
   rfl
 
 theorem block_eq (pb : Problem) :
-    (do let blk ← conv2d (.arr2 true pb.height pb.width (bvars (wb pb) (N pb))) 2 2 .or_
-        ensureV blk) = .ok (c4 pb) := by
+    conv2d (.arr2 true pb.height pb.width (bvars (wb pb) (N pb))) 2 2 .or_
+      = .ok (.arr2 true (pb.height - 1) (pb.width - 1) (c4 pb)) := by
   have hconv := C12Conv.conv2d_eq (whites pb) pb.height pb.width 2 2 .or_ .or rfl (whites_length pb)
   have hw : bvars (wb pb) (N pb) = whites pb := rfl
   rw [hw]
   have e2 : ((2 : Nat) : Int) = 2 := rfl
   rw [e2] at hconv
-  rw [hconv, ok_bind]
+  rw [hconv]
   have h1 : pb.height + 1 - 2 = pb.height - 1 := by omega
   have h2 : pb.width + 1 - 2 = pb.width - 1 := by omega
   rw [h1, h2]
-  unfold C12Conv.convCells
-  rw [ensureV_arr2 _ _ _ _ (by
-    intro e he
-    simp only [List.mem_map] at he
-    obtain ⟨i, _, rfl⟩ := he
-    rfl)]
   rfl
 
-theorem regionCount_eq (pb : Problem) (r : Int) :
-    (do let m ← binop .eq (.arr2 false pb.height pb.width (ivars 0 (N pb))) (.scalar (.litI r))
-        countTrueA [.leaf m]) = .ok (regionCount pb r) := by
-  rw [ivars_zero, binop_cmp_int_arr2_lit .eq .eq (Or.inl ⟨rfl, rfl⟩) _ _ _ (by simp [N]), ok_bind]
-  rw [List.map_map, countTrueA_arr2 _ _ _ (by
+theorem ens_c4 (pb : Problem) : ensureV (.arr2 true (pb.height - 1) (pb.width - 1) (c4 pb)) = .ok (c4 pb) :=
+  ensureV_arr2 _ _ _ _ (by
     intro e he
-    simp only [List.mem_map] at he
+    simp only [c4, List.mem_map] at he
     obtain ⟨i, _, rfl⟩ := he
-    rfl)]
+    rfl)
+
+def mask (pb : Problem) (r : Int) : List Expr := (List.range (N pb)).map fun i => Expr.node .eq [.ivar i, .litI r]
+
+theorem mask_eq (pb : Problem) (r : Int) :
+    binop .eq (.arr2 false pb.height pb.width (ivars 0 (N pb))) (.scalar (.litI r))
+      = .ok (.arr2 true pb.height pb.width (mask pb r)) := by
+  rw [ivars_zero, binop_cmp_int_arr2_lit .eq .eq (Or.inl ⟨rfl, rfl⟩) _ _ _ (by simp [N]), List.map_map]
   rfl
+
+theorem count_mask (pb : Problem) (r : Int) :
+    countTrueA [.leaf (.arr2 true pb.height pb.width (mask pb r))] = .ok (regionCount pb r) :=
+  countTrueA_arr2 _ _ _ (by
+    intro e he
+    simp only [mask, List.mem_map] at he
+    obtain ⟨i, _, rfl⟩ := he
+    rfl)
 
 theorem clueCs_eq (pb : Problem) (ic : (Nat × Nat × Int) × Nat) :
     clueCs pb (.arr2 false pb.height pb.width (ivars 0 (N pb))) ic = .ok (c5At pb ic) := by
   unfold clueCs c5At
   simp only
-  have hreg := regionCount_eq pb ((ic.2 : Int) + 1)
-  simp only [bind, Except.bind] at hreg
   by_cases h1 : ic.1.2.2 > 0
-  · rw [if_pos h1, if_pos h1]
-    simp only [bind, Except.bind]
-    split at hreg
-    · cases hreg
-    · rename_i m hm
-      rw [hm]
-      simp only
-      rw [hreg]
-      simp only
-      rw [binop_cmp_countTrueE .eq .eq (Or.inl ⟨rfl, rfl⟩)]
-      exact ensureV_scalar _ rfl
+  · rw [if_pos h1, if_pos h1, mask_eq, ok_bind, count_mask, ok_bind]
+    simp only [regionCount]
+    rw [binop_cmp_countTrueE .eq .eq (Or.inl ⟨rfl, rfl⟩), ok_bind]
+    exact ensureV_scalar _ rfl
   · rw [if_neg h1, if_neg h1]
     by_cases h2 : ic.1.2.2 = -1
     · have h2' : (ic.1.2.2 == -1) = true := by simp [h2]
@@ -287,16 +291,11 @@ theorem clueCs_eq (pb : Problem) (ic : (Nat × Nat × Int) × Nat) :
       cases hl : pb.unknownLow with
       | none => rfl
       | some low =>
-        simp only [bind, Except.bind]
-        split at hreg
-        · cases hreg
-        · rename_i m hm
-          rw [hm]
-          simp only
-          rw [hreg]
-          simp only
-          rw [binop_cmp_countTrueE .ge .ge (Or.inr (Or.inl ⟨rfl, rfl⟩))]
-          exact ensureV_scalar _ rfl
+        simp only
+        rw [mask_eq, ok_bind, count_mask, ok_bind]
+        simp only [regionCount]
+        rw [binop_cmp_countTrueE .ge .ge (Or.inr (Or.inl ⟨rfl, rfl⟩)), ok_bind]
+        exact ensureV_scalar _ rfl
     · have h2' : (ic.1.2.2 == -1) = false := by simp [h2]
       rw [if_neg (by simp [h2']), if_neg h2]
 
@@ -311,7 +310,7 @@ theorem addKeys_offset (b : Nat) : ∀ (k m : Nat),
       = .ok ((List.range (m + k)).map fun i => b + i)
   | 0, m => rfl
   | k + 1, m => by
-    simp only [List.range'_succ, List.map_cons, List.foldlM_cons, isVarExpr, bind, Except.bind]
+    simp only [List.range'_succ, List.map_cons, List.foldlM_cons, C11Grid.isVarExpr_bvar, bind, Except.bind]
     have : ((List.range m).map fun i => b + i).contains (b + m) = false := by
       rw [List.contains_eq_mem]
       simp
@@ -320,7 +319,8 @@ theorem addKeys_offset (b : Nat) : ∀ (k m : Nat),
     have hs : ((List.range m).map fun i => b + i) ++ [b + m] = (List.range (m + 1)).map fun i => b + i := by
       rw [List.range_succ, List.map_append]; rfl
     rw [hs, addKeys_offset b k (m + 1)]
-    congr 2; omega
+    have : m + 1 + k = m + (k + 1) := by omega
+    rw [this]
 
 def keyList (pb : Problem) : List Nat := (List.range (N pb)).map fun i => wb pb + i
 
@@ -388,12 +388,18 @@ theorem program_eq {pb : Problem} (hwf : WellFormed pb) : program pb = .ok (prog
   have hdc := dc_eq hwf
   simp only [N, K, rootsOf] at hdc
   rw [hdc, ok_bind]
-  have h1 := c1_eq pb
+  have h1 := ne0_eq pb
+  have h1' := def_eq pb
+  have hk := addKeys_whites pb
   have h2 := sameIsland_v hwf
   have h3 := sameIsland_h hwf
   have h4 := block_eq pb
-  simp only [N, wb] at h1 h2 h3 h4
-  simp only [bind, Except.bind] at h1 h4
-  sorry
+  simp only [N, wb] at h1 h1' hk h2 h3 h4
+  rw [h1, ok_bind, h1', ok_bind, ens_c1, ok_bind, hk, ok_bind, h2, ok_bind, h3, ok_bind, h4, ok_bind, ens_c4, ok_bind]
+  have h5 : (clueList pb).zipIdx.mapM (clueCs pb (.arr2 false pb.height pb.width (ivars 0 (pb.height * pb.width))))
+      = .ok ((clueList pb).zipIdx.map (c5At pb)) :=
+    mapM_eq_ok_map (fun ic _ => clueCs_eq pb ic)
+  rw [h5, ok_bind]
+  simp only [prog, loc, c5, List.flatMap_def, List.append_assoc, N]
 
 end Cspuz.Proofs.C11NurikabeA
